@@ -17,9 +17,11 @@ RULE = ("one run = one seeded scenario over a small-domain program (product of r
 REAL = ["pyvsc (all of src/vsc)", "PyBoolector solver", "Python random (RandState)"]
 STUB = ["user code (generated)", "stdout (sink)"]
 ASSUMPTIONS = ["reference enumerator + evaluator (DESIGN 3.1) decide satisfiability exactly on the "
-               "generated (unambiguous) shapes"]
+               "generated (unambiguous) shapes",
+               "random-size-list programs ('rsz') are judged one-sidedly: a sampled witness proves "
+               "satisfiability, an unsatisfiable system that wrongly returns values is left to C01/C04"]
 REQUIRED_NONZERO = {"*": ["sat_calls", "unsat_calls", "faults_fired.force_unsat", "probes",
-                          "kind_list", "kind_rl"]}
+                          "kind_list", "kind_rl", "kind_rsz", "kind_core", "witness_calls"]}
 
 
 def budget(tier):
